@@ -102,13 +102,13 @@ def jobs_c03(tier, seed):
     f = ["c03"]
     jobs = []
     ns = [2, 3] if tier == "quick" else [2, 3, 4, 5]
-    # quick: one wave of 14 queries on 16 cores (the 900 s budget); the other n=3 variants are thorough
-    quick3 = {"bytes": {0, 1, 2, 3}, "stream": {1, 3}, "str": {2, 3}}
+    # quick: one wave of 9 queries (the 900 s budget); the other n=3 variants are thorough
+    quick3 = {"bytes": {1, 2}, "stream": {3}, "str": set()}
     for n in ns:
         for mask in range(2 ** (n - 1)):
             cuts = "".join("|" if (mask >> i) & 1 else "." for i in range(n - 1))
             to = {2: 900, 3: 1800, 4: 3600, 5: 3 * 3600}[n]
-            mem = 12 if n < 4 else 20
+            mem = 12 if n < 3 else 20
             opt = n >= 5
             skip = lambda kind: tier == "quick" and n == 3 and mask not in quick3[kind]
             if not skip("bytes"):
@@ -129,14 +129,19 @@ def jobs_c13(tier, seed):
         ("effects_set_laws", "two free effect sets (4096 x 4096), complete"),
         ("effects_iter_order", "every effect set, complete"),
         ("effects_debug_single_names", "each of the 12 effects and the empty set, byte-exact"),
-        ("effects_debug_names", "every effect set, complete (fragment-level tokenisation)"),
+        ("effects_debug_names_lo", "every set of the first six effects (fragment-level tokenisation)"),
+        ("effects_debug_names_hi", "every set of the last six effects"),
+        ("effects_debug_names_ends", "every set of the first three and last three effects"),
         ("style_setters_getters", "free style x free colours, complete"),
         ("style_convenience_and_ops", "free style x free effect sets, complete"),
         ("style_eq_effects", "free style x free effect set, complete"),
         ("ansi_256_bijection", "all 16 colours / all 256 indices, complete"),
         ("bright_projection", "all 16 colours, complete"),
     ]
-    return [J(f"c13::{n}", features=f, timeout_s=1800, mem_gb=24, expect_gb=8 if "debug_names" in n else 3, bound=b) for n, b in names]
+    jobs = [J(f"c13::{n}", features=f, timeout_s=1800, mem_gb=24, expect_gb=8 if "debug_names" in n else 3, bound=b) for n, b in names]
+    if tier == "thorough":
+        jobs.append(J("c13::effects_debug_names", features=f, timeout_s=2 * 3600, mem_gb=50, expect_gb=40, optional=True, bound="debug text of every effect set (all 4096), complete; needs more than 24 GB"))
+    return jobs
 
 
 def jobs_c01(tier, seed):
@@ -308,6 +313,11 @@ def jobs_c06(tier, seed):
         ("write_s_short0_second_run", "write(): two printable runs; the second inner call accepts 0 bytes"),
     ]
     jobs = [J(f"c06::{n}", features=f, timeout_s=1800, mem_gb=24, expect_gb=6, all_covers=False, min_covers=1, bound=b + " -- concrete script, symbolic buffer and error kind") for n, b in q]
+    qc = [
+        ("write_c_err1_two_runs", "write(): concrete buffer 'a' BEL 'b' (two printable runs); error of symbolic kind at the second inner call"),
+        ("write_c_short0_second_run", "write(): concrete buffer 'a' BEL 'b'; the second inner call accepts 0 bytes"),
+    ]
+    jobs += [J(f"c06::{n}", features=f, timeout_s=900, mem_gb=12, expect_gb=2, all_covers=False, min_covers=1, bound=b) for n, b in qc]
     jobs += [
         J("c06::write_all_2", features=f, timeout_s=1800, mem_gb=24, expect_gb=6, bound="one write_all() of a 2-byte buffer from any state reachable by a 2-byte prefix; error of any kind at any inner call"),
     ]
@@ -503,8 +513,12 @@ def jobs_c17(tier, seed):
     jobs = []
     shapes = [("fg_bg", 4, "both colours"), ("fg_only", 3, "foreground only"), ("bg_only", 3, "background only"), ("none", 1, "no colour")]
     for sh, ncalls, what in shapes:
-        jobs.append(J(f"c17::colored_{sh}_ok", features=f, timeout_s=1200, all_covers=False, min_covers=1,
-                      bound=f"{what} (all 16 values each), data <=3 bytes, any accepted count, no failure"))
+        if sh == "none" or tier == "thorough":
+            jobs.append(J(f"c17::colored_{sh}_ok", features=f, timeout_s=1800, all_covers=False, min_covers=1,
+                          bound=f"{what} (all 16 values each), data <=3 bytes (length symbolic), any accepted count, no failure"))
+        if sh != "none":
+            jobs.append(J(f"c17::colored_{sh}_ok2", features=f, timeout_s=1200, all_covers=False, min_covers=1,
+                          bound=f"{what} (all 16 values each), 2 symbolic data bytes, any accepted count (0, 1, all), no failure"))
         for k in range(ncalls):
             if sh == "none" and k > 0:
                 continue
@@ -597,7 +611,7 @@ REGISTRY = {
         "jobs": jobs_c06,
         "level": "model_checking",
         "functions": ["anstream::strip::{write, write_all, write_fmt, offset_to} behind StripStream::<&mut dyn Write>::{write, write_vectored, write_all, write_fmt}", "anstream::fmt::Adapter::{write_fmt, write_str}", "anstream::adapter::StripBytes::strip_next"],
-        "bounds": {"quick": "write(): 5 concrete inner-writer scripts (accept all / short write of 0 / error at the first inner call) x 1 symbolic byte x symbolic error kind, from carried states Ground, CsiEntry and inside a character; write_all: 2 bytes from any state reachable by a 2-byte prefix, error at any inner call", "thorough": "write() of 2 symbolic bytes with a short write of 1; write_fmt of two fragments (optional); write() over two printable runs with an error / short write at the second inner call (optional: the replay after a short write makes this the most expensive query of the repository); fully symbolic scripts (accept sizes {0,1,2,3,all}, one error anywhere) for 1 byte from 5 carried states and 2 bytes from 3 (optional); write_vectored (optional)"},
+        "bounds": {"quick": "write(): 5 concrete inner-writer scripts (accept all / short write of 0 / error at the first inner call) x 1 symbolic byte x symbolic error kind, from carried states Ground, CsiEntry and inside a character; two concrete two-run buffers with an error / short write at the second inner call; write_all: 2 bytes from any state reachable by a 2-byte prefix, error at any inner call", "thorough": "write() of 2 symbolic bytes with a short write of 1; write_fmt of two fragments (optional); write() over two printable runs with an error / short write at the second inner call (optional: the replay after a short write makes this the most expensive query of the repository); fully symbolic scripts (accept sizes {0,1,2,3,all}, one error anywhere) for 1 byte from 5 carried states and 2 bytes from 3 (optional); write_vectored (optional)"},
         "outside": "longer buffers within one call; more than one injected error per call; the protocol over several calls follows by induction from the lemma's state clause (not unrolled)",
         "assumptions": ["the reference for 'stripped form' is an independent copy of StripBytes run on the consumed prefix (C01 ties StripBytes to the model)", "hook StripStream::verif_state observes the carried state", "inputs of the recorded C01 finding class (control byte inside broken UTF-8) are excluded while that finding is open"],
     },
@@ -659,7 +673,7 @@ REGISTRY = {
         "jobs": jobs_c17,
         "level": "model_checking",
         "functions": ["anstyle_wincon::ansi::write_colored", "<dyn std::io::Write as anstyle_wincon::WinconStream>::write_colored", "<Vec<u8> as WinconStream>::write_colored", "anstyle::AnsiColor::{render_fg,render_bg}", "anstyle::Reset::render", "std::io::Write::write_fmt (default) as compiled by Kani"],
-        "bounds": {"quick": "17x17 colour pairs, data <=3 bytes (all values), any accepted prefix, failure of any kind {Interrupted,WouldBlock,Other} at any of the <=4 inner writes", "thorough": "same"},
+        "bounds": {"quick": "17x17 colour pairs; no failure: 2 symbolic data bytes, any accepted prefix (0-3 bytes without colours); failure of any kind {Interrupted,WouldBlock,Other} at each of the <=4 inner writes with data <=3 bytes (symbolic length)", "thorough": "no-failure queries with symbolic data length <=3 as well"},
         "outside": "data longer than 3 bytes; File/stdio writers (same generic function)",
         "assumptions": ["scripted writer overrides write_all (no retry loop), errors are bare ErrorKinds"],
     },
@@ -692,8 +706,8 @@ REGISTRY = {
             "anstyle_parse::state::state_change, utf8parse::Parser::advance",
         ],
         "bounds": {
-            "quick": "every byte string of length <=3 x every partition into consecutive chunks (one query per partition: 2 + 4), byte adapters, strip stream and text adapters (cuts at character boundaries)",
-            "thorough": "lengths <=5 (bytes; 5 optional) and <=4 (text, stream)",
+            "quick": "every byte string of length 2 x both partitions for byte adapters, strip stream and text adapters (cuts at character boundaries); every byte string of length 3 for the partitions a|bc and ab|c (byte adapter) and a|b|c (strip stream) -- one query per (adapter, partition), 9 queries",
+            "thorough": "all partitions of lengths <=3 for all three adapters, lengths <=5 (bytes; 5 optional) and <=4 (text, stream)",
         },
         "outside": "longer inputs; the styled-run extractor's chunking is covered under C07's run harness",
         "assumptions": ["the chunked result is compared with the one-shot result of the same build (and C01 ties the one-shot result to the model)"],
@@ -750,14 +764,15 @@ REGISTRY = {
     "C13": {
         "jobs": jobs_c13,
         "level": "proof",
+        "exhaustive": {"quick": False, "thorough": True},
         "functions": [
             "anstyle::Effects::{new,is_plain,contains,insert,remove,clear,set,iter,BitOr,Sub,BitOrAssign,SubAssign,Debug}",
             "anstyle::Style::{fg_color,bg_color,underline_color,effects,bold..strikethrough,get_*,is_plain,BitOr,Sub,PartialEq<Effects>}",
             "anstyle::AnsiColor::{bright,is_bright}",
             "anstyle::Ansi256Color::{into_ansi,from_ansi,index}",
         ],
-        "bounds": {"quick": "complete over the finite value space (bit-vector reasoning)", "thorough": "same"},
-        "outside": "nothing within the stated laws; Debug checked through core::fmt into a fixed sink",
+        "bounds": {"quick": "complete over the finite value space (bit-vector reasoning) for every law except the Debug text of multi-member sets, which is decided for three 6-effect windows (192 of the 4096 sets) plus every single effect byte-exact", "thorough": "Debug text for all 4096 sets as well (optional: needs more than 24 GB)"},
+        "outside": "quick: Debug text of sets that mix effects across the three windows; Debug is checked through core::fmt into a fixed sink",
         "trusted": ["Kani 0.68 MIR->goto", "CBMC 6.11 + CaDiCaL", "core::fmt as compiled by Kani"],
         "assumptions": ["Effects values are exactly those constructible through the public API (12 bits)"],
     },
